@@ -2,8 +2,8 @@ package h
 
 import "math"
 
-func isNaN32(f float32) bool { return f != f }
-func isInf32(f float32) bool { return math.IsInf(float64(f), 0) }
+func isNaN32(f float32) bool  { return f != f }
+func isInf32(f float32) bool  { return math.IsInf(float64(f), 0) }
 func finite32(f float32) bool { return !isNaN32(f) && !isInf32(f) }
 
 // Within30 is the format's 30-bit float tolerance: sign preserved, infinities preserved,
